@@ -204,7 +204,9 @@ class ComponentTensor(Operator):
         # Special case for simplification as_tensor(A[ii], ii) -> A
         if isinstance(expression, Indexed):
             A, ii = expression.ufl_operands
-            if indices == ii:
+            # Only valid if A itself does not depend on the bound indices:
+            # as_tensor(A_i[i], i) is the "diagonal" of A_i, not A_i
+            if indices == ii and not ({i.count() for i in ii} & set(A.ufl_free_indices)):
                 return A
 
         # Construct a new instance to be initialised
